@@ -186,6 +186,47 @@ func main() {
 			}
 		}
 	}
+	// a context-bound When over two states that completes normally, then other subscriptions on
+	// the same states, then the context ends: the later subscriptions must still be served
+	for _, kind := range []string{"When", "WhenNot"} {
+		total++
+		ctx, cancel := context.WithCancel(context.Background())
+		m := am.New(ctx, am.Schema{"A": {}, "B": {Multi: true}, "C": {}}, &am.Opts{Id: "verif-c06"})
+		ctx2, cancel2 := context.WithCancel(context.Background())
+		bad := ""
+		var first <-chan struct{}
+		if kind == "When" {
+			first = m.When(am.S{"A", "C"}, ctx2)
+			m.Add(am.S{"A", "C"}, nil)
+		} else {
+			m.Add(am.S{"A", "C"}, nil)
+			first = m.WhenNot(am.S{"A", "C"}, ctx2)
+			m.Remove(am.S{"A", "C"}, nil)
+		}
+		if !closed(first) {
+			bad = kind + "(A,C; ctx) still open although its condition held"
+		}
+		var laterA, laterC <-chan struct{}
+		if kind == "When" {
+			laterA, laterC = m.WhenNot1("A", nil), m.WhenNot1("C", nil)
+		} else {
+			laterA, laterC = m.When1("A", nil), m.When1("C", nil)
+		}
+		cancel2()
+		m.Add1("B", nil) // a transition after the context ended
+		if kind == "When" {
+			m.Remove(am.S{"A", "C"}, nil)
+		} else {
+			m.Add(am.S{"A", "C"}, nil)
+		}
+		if bad == "" && (!closed(laterA) || !closed(laterC)) {
+			bad = fmt.Sprintf("subscriptions taken after a completed %s(A,C; ctx): closed A=%v C=%v although both conditions held (the context of the first one had ended in between)", kind, closed(laterA), closed(laterC))
+		}
+		cancel()
+		if bad != "" {
+			failing = append(failing, "completed multi-state "+kind+" with a context, later subscriptions on its states => "+bad)
+		}
+	}
 	json.NewEncoder(os.Stdout).Encode(map[string]any{"failing": failing, "total": total})
 }
 `
